@@ -103,7 +103,7 @@ func VP_C06_truthiness() {
 	vpObserve("case", kind, which, truthy)
 	switch which {
 	case 0: // !!c
-		v, err := r.resolve(ctx, &PrefixUnaryExpression{Operator: &TokenNode{Token: SK_ExclamationExclamation}, Operand: vpId("c")})
+		v, err := vpExact(r, ctx, &PrefixUnaryExpression{Operator: &TokenNode{Token: SK_ExclamationExclamation}, Operand: vpId("c")})
 		b, ok := v.(bool)
 		vpAssert("C06/bangbang/is-truthiness", err == nil && ok && b == truthy)
 	case 1: // !c (booleans, numbers and null)
@@ -111,14 +111,14 @@ func VP_C06_truthiness() {
 		if !(kind == vtNull || kind == vtBool || kind == vtFinite || kind == vtNaN || kind == vtInf) {
 			return
 		}
-		v, err := r.resolve(ctx, &PrefixUnaryExpression{Operator: &TokenNode{Token: SK_Exclamation}, Operand: vpId("c")})
+		v, err := vpExact(r, ctx, &PrefixUnaryExpression{Operator: &TokenNode{Token: SK_Exclamation}, Operand: vpId("c")})
 		b, ok := v.(bool)
 		vpAssert("C06/not/is-negated-truthiness", err == nil && ok && b == !truthy)
 	case 2: // c ? ($t = x) : ($u = y): only the selected branch is evaluated
 		e := &ConditionalExpression{Condition: vpId("c"), QuestionTok: &TokenNode{Token: SK_Question}, ColonTok: &TokenNode{Token: SK_Colon},
 			WhenTrue:  &ParenthesizedExpression{Expression: vpBin(SK_Equals, vpId("$t"), vpId("x"))},
 			WhenFalse: &ParenthesizedExpression{Expression: vpBin(SK_Equals, vpId("$u"), vpId("y"))}}
-		v, err := r.resolve(ctx, e)
+		v, err := vpExact(r, ctx, e)
 		_, tSet := data["$t"]
 		_, uSet := data["$u"]
 		vpAssert("C06/conditional/no-error", err == nil)
@@ -130,7 +130,7 @@ func VP_C06_truthiness() {
 			vpAssert("C06/conditional/only-selected-branch-evaluated", uSet && !tSet)
 		}
 	case 3: // c && y
-		v, err := r.resolve(ctx, vpBin(SK_AmpersandAmpersand, vpId("c"), vpId("y")))
+		v, err := vpExact(r, ctx, vpBin(SK_AmpersandAmpersand, vpId("c"), vpId("y")))
 		vpAssert("C06/and/no-error", err == nil)
 		if truthy {
 			vpAssert("C06/and/yields-right-when-truthy", vpSame(v, "right"))
@@ -138,7 +138,7 @@ func VP_C06_truthiness() {
 			vpAssert("C06/and/yields-left-when-falsy", vpSameCond(v, c, kind))
 		}
 	case 4: // c || x
-		v, err := r.resolve(ctx, vpBin(SK_BarBar, vpId("c"), vpId("x")))
+		v, err := vpExact(r, ctx, vpBin(SK_BarBar, vpId("c"), vpId("x")))
 		vpAssert("C06/or/no-error", err == nil)
 		if truthy {
 			vpAssert("C06/or/yields-left-when-truthy", vpSameCond(v, c, kind))
@@ -146,7 +146,7 @@ func VP_C06_truthiness() {
 			vpAssert("C06/or/yields-right-when-falsy", vpSame(v, px))
 		}
 	case 5: // c ?? x
-		v, err := r.resolve(ctx, vpBin(SK_QuestionQuestion, vpId("c"), vpId("x")))
+		v, err := vpExact(r, ctx, vpBin(SK_QuestionQuestion, vpId("c"), vpId("x")))
 		vpAssert("C06/coalesce/no-error", err == nil)
 		if kind == vtNull || kind == vtTypedNil {
 			vpAssert("C06/coalesce/yields-right-when-null", vpSame(v, px))
@@ -157,7 +157,7 @@ func VP_C06_truthiness() {
 		e := &ConditionalExpression{Condition: &ParenthesizedExpression{Expression: vpBin(SK_AmpersandAmpersand, vpId("c"), vpId("y"))},
 			QuestionTok: &TokenNode{Token: SK_Question}, ColonTok: &TokenNode{Token: SK_Colon},
 			WhenTrue: vpId("x"), WhenFalse: &ParenthesizedExpression{Expression: vpBin(SK_BarBar, vpId("c"), vpId("y"))}}
-		v, err := r.resolve(ctx, e)
+		v, err := vpExact(r, ctx, e)
 		vpAssert("C06/nested/no-error", err == nil)
 		if truthy {
 			vpAssert("C06/nested/truthy", vpSame(v, px))
@@ -167,7 +167,7 @@ func VP_C06_truthiness() {
 	case 9: // c ? c : ($u = y): the unselected branch must not run even when the true branch repeats the condition
 		e := &ConditionalExpression{Condition: vpId("c"), QuestionTok: &TokenNode{Token: SK_Question}, ColonTok: &TokenNode{Token: SK_Colon},
 			WhenTrue: vpId("c"), WhenFalse: &ParenthesizedExpression{Expression: vpBin(SK_Equals, vpId("$u"), vpId("y"))}}
-		v, err := r.resolve(ctx, e)
+		v, err := vpExact(r, ctx, e)
 		_, uSet := data["$u"]
 		vpAssert("C06/conditional-same-ref/no-error", err == nil)
 		if truthy {
@@ -188,7 +188,7 @@ func VP_C06_truthiness() {
 		if perr != nil {
 			return
 		}
-		v, err := r.resolve(ctx, code.Expression)
+		v, err := vpExact(r, ctx, code.Expression)
 		vpAssert("C06/nested-text/no-error", err == nil)
 		if truthy {
 			vpAssert("C06/nested-text/truthy", vpSame(v, wantT))
@@ -283,7 +283,7 @@ func VP_C06_effects() {
 	}
 	r := NewRunner()
 	r.SetThis(data)
-	v, err := r.resolve(ctx, code.Expression)
+	v, err := vpExact(r, ctx, code.Expression)
 	vpObserve("effects", which, calls, rcalls)
 	vpAssert("C06/effects/no-error", err == nil)
 	if which == 6 {
@@ -346,12 +346,12 @@ func VP_C06_reeval() {
 	sameRunner := vpBool("sameRunner")
 	r := NewRunner()
 	r.SetThis(map[string]interface{}{"c": c1, "m": map[string]interface{}{"c": c1}})
-	r.resolve(ctx, code.Expression)
+	vpExact(r, ctx, code.Expression)
 	if !sameRunner {
 		r = NewRunner()
 	}
 	r.SetThis(map[string]interface{}{"c": c2, "m": map[string]interface{}{"c": c2}})
-	v, err := r.resolve(ctx, code.Expression)
+	v, err := vpExact(r, ctx, code.Expression)
 	vpObserve("reeval", which, vpShowValue(v))
 	vpAssert("C06/reeval/no-error", err == nil)
 	_, isStr := c2.(string)
